@@ -41,6 +41,7 @@ Inductive case :=
 | CFrom (c : cfg) (s : list Z) (r : res)                  (* r = FromChStyle s, s arbitrary *)
 | CRange (c : cfg) (t : Z) (mn mx : Z) (probes : list (Z * Z))        (* TimeIDRange t; probes (id, IDParse id time) *)
 | CBetween (c : cfg) (b e : Z) (mn mx : Z) (probes : list (Z * Z))    (* TimeBetweenID b e *)
+| CSetup (cur : cfg) (opts : list opt) (p0 fm f1 : Z * Z * Z)  (* globals cur, Setup(opts...), then IDParse 0, IDFields (-1), IDFields 1 *)
 | CZone (ms off : Z).                                     (* zone offset in seconds Go reports for the instant ms *)
 
 (* ---- correspondence: the implementation returned exactly what the model computes ---- *)
@@ -57,6 +58,9 @@ Definition case_accept (k : case) : bool :=
       let '(a, b) := time_id_range c t in (mn =? a) && (mx =? b) && probes_match c ps
   | CBetween c b e mn mx ps =>
       let '(a, b') := time_between_id c b e in (mn =? a) && (mx =? b') && probes_match c ps
+  | CSetup cur opts p0 fm f1 =>
+      let c := setup_from cur opts in
+      z3_eqb p0 (id_parse c 0) && z3_eqb fm (id_fields c (-1)) && z3_eqb f1 (id_fields c 1)
   | CZone ms off => if ZONE_FROM <=? ms then off * 1000 =? OFF else true
   end.
 
@@ -110,6 +114,12 @@ Definition holds_between (c : cfg) (b e mn mx : Z) (ps : list (Z * Z)) : bool :=
   if (b <=? e) && fits_u c (bs - epoch c) && fits_u c (es - epoch c)
   then holds_bounds c bs es mn mx && holds_probes bs es mn mx ps else true.
 
+(* Setup leaves a layout of the property's quantifier behind: read back through the all-ones id, the node field
+   is 2^8-1, 2^9-1 or 2^10-1 whenever the globals were such a layout before *)
+Definition layout_okb (c : cfg) : bool := (node_bits c =? 8) || (node_bits c =? 9) || (node_bits c =? 10).
+Definition holds_setup (fm : Z * Z * Z) : bool :=
+  let n := snd (fst fm) in (n =? 255) || (n =? 511) || (n =? 1023).
+
 Definition case_holds (k : case) : bool :=
   match k with
   | CFields c id f p x => if valid_cfg c && in_dom id then holds_fields c id f p x else true
@@ -119,5 +129,6 @@ Definition case_holds (k : case) : bool :=
   | CFrom _ _ _ => true
   | CRange c t mn mx ps => if valid_cfg c then holds_between c t t mn mx ps else true
   | CBetween c b e mn mx ps => if valid_cfg c then holds_between c b e mn mx ps else true
+  | CSetup cur _ _ fm _ => if layout_okb cur then holds_setup fm else true
   | CZone _ _ => true
   end.
